@@ -102,6 +102,20 @@ let selected (cmap : z list) : (encoding * subtable) option =
 let glyph (st : subtable) (c : int) : int =
   match map_glyph st (z_of_int c) with Ok (Some g) -> z_to_int g | _ -> 0
 
+(* The glyph the SOURCE sub-table gives a code.  Format 2: a two byte code whose first byte is not a lead byte
+   (subHeaderKey 0), and a lead byte used as a one byte code, are not codes of the table: mappings_fn does not
+   enumerate them, map_glyph (Rust and C06 model alike) answers with the sub-header 0 entry of the low byte.
+   They count as unmapped (docs/C08.md). *)
+let f2_improper (st : subtable) (c : int) : bool =
+  match st with
+  | F2 (_, keys, _, _) ->
+    let lead hb = (match List.nth_opt keys hb with Some k -> z_to_int k / 8 <> 0 | None -> false) in
+    if c < 0 || c > 0xFFFF then true
+    else if c < 0x100 then lead c else not (lead (c lsr 8))
+  | _ -> false
+
+let glyph_src (st : subtable) (c : int) : int = if f2_improper st c then 0 else glyph st c
+
 (* ---------------------------------------------------------------------------------------------- *)
 (* E *)
 
@@ -178,8 +192,11 @@ let tag (input : string) (out : string) : string =
       (if n = 0 then "0" else if n <= 4 then "1-4" else if n <= 40 then "5-40" else if n <= 1000 then "41-1000" else ">1000")
       (out_format out)
   | "K" :: _ -> "K/" ^ (if starts_with "ok:" out then "plane" ^ String.sub out 3 1 else out)
-  | ["E"; _; _; _; target; ids; _] ->
-    Printf.sprintf "E/%s/%s/%s" target (if List.length (csv ids) > 256 then ">256ids" else "<=256ids")
+  | ["E"; h; _; _; target; ids; _] ->
+    let src = (match selected (bytes_of_hex h) with
+        | Some (enc, st) -> enc_name enc ^ (match st with F0 _ -> "-f0" | F2 _ -> "-f2" | F4 _ -> "-f4" | F6 _ -> "-f6" | F10 _ -> "-f10" | F12 _ -> "-f12")
+        | None -> "unreadable") in
+    Printf.sprintf "E/%s/%s/%s/%s" src target (if List.length (csv ids) > 256 then ">256ids" else "<=256ids")
       (if starts_with "ok:" out then out_format out ^ "/" ^ field "enc" out else out)
   | _ -> "?"
 
@@ -256,11 +273,68 @@ let judge_k (_input : string) (impl : string) (model : string) : verdict =
 let index_of (x : int) (l : int list) : int option =
   let rec go i = function [] -> None | y :: t -> if y = x then Some i else go (i + 1) t in go 0 l
 
+(* the Font-level fields the harness appends: (character, source glyph, subset glyph) *)
+let font_level (impl : string) : (int * int * int) list option =
+  match field "fl" impl with
+  | "" -> Some []
+  | "-" -> Some []
+  | s ->
+    (try Some (List.map (fun t -> match split_on ':' t with
+         | [u; sg; og] -> (int_of_string u, int_of_string sg, int_of_string og)
+         | _ -> failwith "fl") (csv s))
+     with _ -> None)
+
+(* the implementation's result without the Font-level fields (the model has none) *)
+let strip_font_level (impl : string) : string =
+  String.concat ";" (List.filter (fun f -> not (starts_with "fl=" f) && not (starts_with "nrt=" f)) (split_on ';' impl))
+
+(* cmap_agrees at the Font level: Font::lookup_glyph_index of the subset font against
+   Font::lookup_glyph_index of the source font, for every character the harness examined.
+   Independent of the subsetting model AND of the cmap reader model; the only way a Big5 source is judged
+   (the Big5 code of a character comes from allsorts::big5 / encoding_rs). *)
+let judge_font_level (impl : string) (enc_o : encoding) (target : string) (idl : int list) : string option =
+  match font_level impl with
+  | None -> Some ("Font level: " ^ field "fl" impl)
+  | Some l ->
+    let bad = ref None in
+    List.iter (fun (u, sg, og) ->
+        if !bad = None then begin
+          let mac = (match is_macroman (z_of_int u) with true -> true | false -> false) in
+          (* a Mac Roman byte table is reached through char_to_macroman; other characters fall into Font's legacy
+             symbol path (docs: judged at the sub-table level) *)
+          let judged = (match enc_o with EAppleRoman -> mac | ESymbol -> false | _ -> true) in
+          if judged then begin
+            let e = if sg = 0 || (target = "m" && not mac) then 0
+              else (match index_of sg idl with Some i -> i | None -> 0) in
+            if og <> e then
+              bad := Some (Printf.sprintf "Font level: U+%04X maps to glyph %d in the subset font, the source font maps it to glyph %d = new glyph %d" u og sg e)
+          end
+        end) l;
+    !bad
+
 let judge_e (input : string) (impl : string) (model : string) : verdict =
   match split_on '|' input with
+  | [_; _; _; _; target; ids; _] when model = "big5" ->
+    (* Big5 source: not modelled, judged at the Font level only *)
+    if impl = "p" then Violation ("panic", "subset panicked (Big5 source)")
+    else if starts_with "readback:" impl then Violation ("readback", "the output font's cmap cannot be read by allsorts: " ^ impl)
+    else if not (starts_with "ok:" impl) then Agree
+    else begin
+      let out_hex = List.hd (split_on ';' (after "ok:" impl)) in
+      match selected (bytes_of_hex out_hex) with
+      | None -> Violation ("readback", "the output cmap cannot be read by the C06 model")
+      | Some (enc_o, _) ->
+        if field "fl" impl = "" then Mismatch "Big5 source without Font-level lookups"
+        else (match judge_font_level impl enc_o target (List.map int_of_string (csv ids)) with
+            | Some why ->
+              if field "nrt" impl <> "0" then Violation ("big5-alias", "source maps Big5 codes that are not the code of their character; " ^ why)
+              else Violation ("cmap_agrees", why)
+            | None -> Agree)
+    end
   | [_; h; os2; _n; target; ids; probes] ->
-    if model = "big5" then Agree
-    else if impl = "p" then Violation ("panic", "subset panicked, model: " ^ String.sub model 0 (min 60 (String.length model)))
+    let impl_full = impl in
+    let impl = strip_font_level impl in
+    if impl = "p" then Violation ("panic", "subset panicked, model: " ^ String.sub model 0 (min 60 (String.length model)))
     else if starts_with "readback:" impl then Violation ("readback", "the output font's cmap cannot be read by allsorts: " ^ impl)
     else if not (starts_with "ok:" impl) then
       (if impl = model then Agree
@@ -284,16 +358,16 @@ let judge_e (input : string) (impl : string) (model : string) : verdict =
             | _ -> if is_scalar p then Some (`U p) else None in
           match ch with
           | None -> 0
-          | Some (`S c) -> (match enc_s with ESymbol -> glyph st_s c | _ -> 0)
+          | Some (`S c) -> (match enc_s with ESymbol -> glyph_src st_s c | _ -> 0)
           | Some (`U u) ->
             if target = "m" && not (is_macroman (z_of_int u)) then 0
             else (match enc_s with
-                | EUnicode -> glyph st_s u
-                | EAppleRoman -> (match char_to_macroman (z_of_int u) with Some b -> glyph st_s (z_to_int b) | None -> 0)
+                | EUnicode -> glyph_src st_s u
+                | EAppleRoman -> (match char_to_macroman (z_of_int u) with Some b -> glyph_src st_s (z_to_int b) | None -> 0)
                 | ESymbol ->
                   (* a Unicode character reaches a symbol sub-table through Font::legacy_symbol_char_code *)
                   (match legacy_symbol_char_code first (z_of_int u) with
-                   | Some c -> glyph st_s (z_to_int c)
+                   | Some c -> glyph_src st_s (z_to_int c)
                    | None -> 0)
                 | EBig5 -> 0) in
         let expected (p : int) : int =
@@ -348,6 +422,8 @@ let judge_e (input : string) (impl : string) (model : string) : verdict =
                check "Mac Roman sweep" p (glyph st_o p)
              | None -> ()
            done);
+        (* 5. Font::lookup_glyph_index of both fonts (Unicode sources; the harness sends nothing for others) *)
+        (if !bad = None && enc_s = EUnicode then bad := judge_font_level impl_full enc_o target idl);
         match !bad with
         | Some why ->
           if Lazy.force dup_source then Violation ("dup-source", "source sub-table enumerates a code twice; " ^ why)
